@@ -47,7 +47,9 @@ def welford(ctx, o, K, dn=None):
 
 
 def cases_seidel(tier):
-    out = [dict(K=1, stop=1, obj='inf'), dict(K=2, stop=1, obj='inf'), dict(K=2, stop=2, obj='inf'), dict(K=2, stop=1, obj='finite')]
+    out = [dict(K=1, stop=1, obj='inf'), dict(K=2, stop=1, obj='inf'), dict(K=2, stop=2, obj='inf'), dict(K=2, stop=1, obj='finite'),
+           # the image lies in the last glass while the image surface itself keeps its default post-material (air)
+           dict(K=1, stop=1, obj='inf', image_air=True), dict(K=2, stop=1, obj='finite', image_air=True)]
     if tier == 'thorough':
         out += [dict(K=3, stop=2, obj='inf'), dict(K=2, stop=2, obj='finite'), dict(K=3, stop=1, obj='finite')]
     return out
@@ -61,10 +63,15 @@ SIGN = dict(TSC=1, CC=1, TAC=1, TPC=1, DC=1)
                 'angular / height field with symbolic maximum',
          doc='every per-surface third-order term equals Welford\'s surface contribution divided by 2 n\'u\' (library sign convention: the '
              'five sums are -1 x Welford\'s S_I..S_V); the sums are the sums of the surface terms')
-def h1_seidel(ctx, K, stop, obj):
+def h1_seidel(ctx, K, stop, obj, image_air=False):
     L = Lens(ctx, K, (), stop, obj, tpos=True)
     ft = 'angle' if obj == 'inf' else 'object_height'
-    o = L.build(aperture=('EPD', ctx.real('epd', lo=0.1, hi=20.0)), field_type=ft, fields=(ctx.real('fy', lo=0.1, hi=20.0),))
+    if image_air:
+        from checks.common import build_optic
+        o = build_optic(ctx, L.surfs(), obj_t=L.t0, image_n=None, aperture=('EPD', ctx.real('epd', lo=0.1, hi=20.0)), field_type=ft,
+                        fields=(ctx.real('fy', lo=0.1, hi=20.0),))
+    else:
+        o = L.build(aperture=('EPD', ctx.real('epd', lo=0.1, hi=20.0)), field_type=ft, fields=(ctx.real('fy', lo=0.1, hi=20.0),))
     S, C1, C2, H, (n, ya, ua, yb, ub) = welford(ctx, o, K)
     den = 2 * n[-1] * ua[-1]
     if not ctx.finite(den) or bool(den == 0) or bool(H == 0):
